@@ -2,6 +2,7 @@
  * block (no terminator, no slack) so that the byte after it is an ASan redzone. */
 #include "config.h"
 #include <libast.h>
+extern unsigned int vt_base_level;   /* engine/tracker_shim.c */
 #include <sanitizer/asan_interface.h>
 #include <sanitizer/allocator_interface.h>
 
@@ -17,7 +18,7 @@ static spif_byteptr_t exact(const char *t, long n)
 }
 static void release(spif_byteptr_t p, long n) { if (p && n <= 0) ASAN_UNPOISON_MEMORY_REGION(p, 1); free(p); }
 
-int c07_init(void) { memset(slot, 0, sizeof(slot)); libast_debug_level = 0; return 1; }
+int c07_init(void) { memset(slot, 0, sizeof(slot)); libast_debug_level = vt_base_level; return 1; }
 int c07_new(int i) { slot[i] = spif_mbuff_new(); return slot[i] != NULL; }
 int c07_new_from_ptr(int i, const char *t, long n, int isnull, int reinit)
 {
@@ -185,7 +186,7 @@ char *c07_subbuff_to_ptr(int i, long idx, long cnt, long *alloc)
     *alloc = r ? (long) __sanitizer_get_allocated_size(r) : 0;
     return r;
 }
-int c07_free(void *p) { free(p); return 1; }
+int c07_free(void *p) { FREE(p); return 1; }
 /* kind 0 cmp, 1 ncmp, 2 comp (object protocol) */
 int c07_cmp(int kind, int i, int o, long n)
 {
